@@ -145,6 +145,14 @@ func (r *request) buildHTTP(mediaType, basePath string, producers map[string]run
 				pw.Close()
 			}()
 
+			defer func() {
+				for _, ff := range r.fileFields {
+					for _, ffi := range ff {
+						ffi.Close()
+					}
+				}
+			}()
+
 			for fn, v := range r.formFields {
 				for _, vi := range v {
 					verifhook.At("cl.multipart.part")
@@ -155,13 +163,6 @@ func (r *request) buildHTTP(mediaType, basePath string, producers map[string]run
 				}
 			}
 
-			defer func() {
-				for _, ff := range r.fileFields {
-					for _, ffi := range ff {
-						ffi.Close()
-					}
-				}
-			}()
 			for fn, f := range r.fileFields {
 				for _, fi := range f {
 					verifhook.At("cl.multipart.part")
